@@ -27,7 +27,8 @@ THEOREMS = [
     "Ode.fState_invariant",
     "Ode.runOde_terminates_shape",
     "Ode.runOde_rows_ok",
-    "Ode.runOde_time_limit_partial",
+    "Ode.runOde_time_limit",
+    "Ode.rows_from_covering_interpolator",
     "Ode.jCompute_fills_exactly",
     "Ode.j_eq_documented",
     "Ode.j_nonneg",
@@ -368,7 +369,7 @@ def make_fake(rng: random.Random, seed: int):
 def fake_cases(ck: Check):
     """(label, start, cdim, steps, max_time, fake)"""
     rng = ck.rng
-    n = 500 if ck.quick else 6000
+    n = 2500 if ck.quick else 20000
     for i in range(n):
         seed = rng.randrange(1 << 30)
         fake, style = make_fake(rng, seed)
@@ -464,7 +465,7 @@ def real_programs(ck: Check):
     yield "stiff:noise", [0.0], noise_eq, zero_ctrl, None, 1, 100, 50.0, True, None
 
     # --- random linear programs --------------------------------------------------------------
-    for _ in range(25 if quick else 400):
+    for _ in range(80 if quick else 600):
         a = rng.choice([-2.0, -0.5, 0.0, 0.5, 1.0, 4.0, 25.0])
         mode = rng.choice([0.0, 0.0, 1.0, 2.0, 4.0, 5.0])
         steps = rng.choice([2, 5, 9, 17, 40])
@@ -503,6 +504,24 @@ def real_programs(ck: Check):
                        ("sys", system))
 
 
+def check_env_assumptions(ck: Check, rec: Recorder, steps, np, case):
+    """the runtime assumptions `EnvOk` of the theorems, checked on what really happened"""
+    for c in rec.cycles:
+        T = c["T"]
+        evs = c["pre"] + [e for s in c["steps"] for e in s["evals"]]
+        ck.spec(all(e["t"] <= T for e in evs), "assume_evals_le", f"RK45 evaluated beyond t_bound={T}", case)
+        if T is not None and T > 0:
+            g = np.linspace(0.0, T, steps)
+            ck.spec(len(g) == steps and g[0] == 0.0 and all(g[i] < g[i + 1] for i in range(steps - 1))
+                    and g[-1] <= T, "assume_grid", f"np.linspace(0,{T},{steps}) is not an increasing grid within [0,T]", case)
+            mo, me, _ = c["final"]
+            s1, s2 = shrink_values(mo, me, T, np)
+            if math.isfinite(me):
+                ck.spec(s1 < me, "assume_shrink1", f"shrink1({mo},{me})={s1} is not below min_error_t", case)
+            if not math.isnan(mo):
+                ck.spec(s2 < T, "assume_shrink2", f"shrink2({mo},{T})={s2} is not below the limit", case)
+
+
 def run_real(ck: Check, ode_mod, np, ops, expect):
     """run the real programs, record, queue model ops; spec oracle on the returned arrays"""
     jobs = []
@@ -525,6 +544,7 @@ def run_real(ck: Check, ode_mod, np, ops, expect):
                 ck.spec(False, "no_result", f"run_ode did not return: {rec.error}", case)
             ck.count("real:noresult")
             continue
+        check_env_assumptions(ck, rec, steps, np, case)
         line = encode_run(rec, start, cdim, steps, mt, np)
         ops.append(line)
         expect.append(("odeS", "real:" + label, impl_canon(rec, res, n, cdim, steps), None))
@@ -571,7 +591,7 @@ def j_cases(ck: Check):
                     ts = ts[:m - 1] + [T] if m >= 2 else ts[:m]
                     M = [[q(rng.randint(-32, 32), 4) for _ in range(sd + cd)] + [ts[i]] for i in range(m)]
                     yield "small", M, sd, use, rng.choice([q(1), q(1, 2), q(1, 4), q(2), q(0)])
-    for _ in range(150 if ck.quick else 3000):
+    for _ in range(600 if ck.quick else 6000):
         m = rng.randint(2, 9)
         sd, cd = rng.randint(1, 4), rng.randint(1, 3)
         use = rng.choice([-1, 0] + list(range(1, sd + 1)))
@@ -822,9 +842,8 @@ def check(ck: Check) -> None:
     ck.not_proved += [
         "termination of scipy's inner stepping loop (the model takes the finite record of one cycle as input)",
         "float evaluation of controllers/equations/shrink formulas and integrator accuracy (runtime; analytic-solution agreement is a numeric test with tolerance 2e-2)",
-        "runOde_time_limit_partial: 'last time <= original max_time' is proved only under NoSilentFail (the integrator never "
-        "gives up while every evaluation was in range); without it the clause is false for the code (Lean example "
-        "Ode.time_limit_counterexample; real witness = program stiff:noise, key time_limit_grows)",
+        "all run_ode theorems are relative to EnvOk (Model/Ode.lean): linspace grid, evaluation times <= t_bound, nextafter(t) < t, "
+        "shrink results strictly below their bound — IEEE/scipy facts checked on every recorded run, not proved",
         "j_eq_documented / j_nonneg hold for |entries| < 1e100 (no clamp) resp. gamma >= 0 and non-decreasing times; float rounding of the products is outside",
     ]
     ck.lean(["Props.C10"], THEOREMS)
